@@ -215,3 +215,100 @@ Example room_receiver_data :
   room_visible_patches rmQ ptB = [0; 1]%nat /\ room_direct_bin tmQ ptA ptB = 6%nat /\
   room_direct_val rmQ ptA ptB 0 <> 0%T.
 Proof. split; [vm_compute; reflexivity|]. split; [vm_compute; reflexivity|]. qc_neq0. Qed.
+
+(** ** the ordered corollary: QfOps is an ordered field with floor / ceiling laws and 0 <= acos <= pi *)
+Lemma qleb_le a b : qleb a b = true <-> a <= b.
+Proof. unfold qleb. apply Qle_bool_iff. Qed.
+Lemma qltb_lt a b : negb (qleb b a) = true <-> a < b.
+Proof.
+  rewrite negb_true_iff. split.
+  - intros H. apply Qcnot_le_lt. intros Hc. apply qleb_le in Hc. congruence.
+  - intros H. destruct (qleb b a) eqn:E; [|reflexivity]. apply qleb_le in E.
+    exfalso. exact (Qclt_not_le _ _ H E).
+Qed.
+
+Global Instance QfOrder : OrderLaws Qc.
+Proof.
+  constructor; unfold tle, tlt; simpl.
+  - intros a. apply qleb_le, Qcle_refl.
+  - intros a b c H1 H2. apply qleb_le in H1, H2. apply qleb_le. eapply Qcle_trans; eassumption.
+  - intros a b H1 H2. apply qleb_le in H1, H2. now apply Qcle_antisym.
+  - intros a b. destruct (Qclt_le_dec a b) as [H|H]; [left; apply qleb_le, Qclt_le_weak, H|right; apply qleb_le, H].
+  - intros a b c H. apply qleb_le in H. apply qleb_le. now apply Qcplus_le_compat; [|apply Qcle_refl].
+  - intros a b H1 H2. apply qleb_le in H1, H2. apply qleb_le.
+    rewrite <- (Qcmult_0_l b). now apply Qcmult_le_compat_r.
+  - intros a b H1 H2. apply qltb_lt in H1, H2. apply qltb_lt.
+    pose proof (Qcmult_lt_compat_r 0 a b H2 H1) as H. now rewrite Qcmult_0_l in H.
+  - reflexivity.
+  - intros a b. destruct (Qc_eq_dec a b); split; congruence.
+  - reflexivity.
+Qed.
+
+Lemma this_ofnat n : (this (tofnat n) == inject_Z (Z.of_nat n))%Q.
+Proof. unfold tofnat, QfOps. cbn [this Q2Qc]. apply Qred_correct. Qed.
+Lemma qfloor_nonneg (x : Qc) : 0 <= x -> (0 <= Qfloor x)%Z.
+Proof. intros H. change 0%Z with (Qfloor 0). apply Qfloor_resp_le. exact H. Qed.
+Lemma qceil_nonneg (x : Qc) : 0 <= x -> (0 <= Qceiling x)%Z.
+Proof. intros H. change 0%Z with (Qceiling 0). apply Qceiling_resp_le. exact H. Qed.
+
+Global Instance QfFloor : FloorLaws Qc.
+Proof.
+  constructor.
+  - apply Qc_is_canon. reflexivity.
+  - intros n. apply Qc_is_canon. unfold tofnat, tadd, tone, QfOps, Qcplus. cbn [this Q2Qc].
+    rewrite !Qred_correct. rewrite Nat2Z.inj_succ, <- Z.add_1_r, inject_Z_plus. reflexivity.
+  - intros x H. apply qleb_le in H. apply qleb_le. unfold Qcle. rewrite this_ofnat. cbn [ttrunc tceil QfOps].
+    rewrite Z2Nat.id by (apply qfloor_nonneg; exact H). apply Qfloor_le.
+  - intros x H. apply qleb_le in H. apply qltb_lt. unfold Qclt. rewrite this_ofnat. cbn [ttrunc tceil QfOps].
+    rewrite Nat2Z.inj_succ, Z2Nat.id by (apply qfloor_nonneg; exact H). rewrite <- Z.add_1_r. apply Qlt_floor.
+  - intros x H. apply qleb_le in H. apply qleb_le. unfold Qcle. rewrite this_ofnat. cbn [ttrunc tceil QfOps].
+    rewrite Z2Nat.id by (apply qceil_nonneg; exact H). apply Qle_ceiling.
+  - intros x H. apply qltb_lt in H. apply qltb_lt. unfold Qclt. rewrite this_ofnat. cbn [ttrunc tceil QfOps].
+    rewrite Z2Nat.id by (apply qceil_nonneg, Qclt_le_weak; exact H).
+    unfold tadd, tone, QfOps, Qcplus. cbn [this Q2Qc]. rewrite !Qred_correct.
+    replace (Qceiling x) with ((Qceiling x - 1) + 1)%Z by ring. rewrite inject_Z_plus.
+    apply Qplus_lt_l. apply Qceiling_lt.
+Qed.
+
+Global Instance QfAcos : AcosLaws Qc.
+Proof.
+  constructor; unfold tle, tlt; simpl.
+  - intros x. unfold qacos. cbv zeta.
+    destruct (qleb _ 0) eqn:E1; [reflexivity|]. destruct (qleb qpi _) eqn:E2; [reflexivity|].
+    apply qleb_le, Qclt_le_weak, qltb_lt. now rewrite E1.
+  - intros x. unfold qacos. cbv zeta.
+    destruct (qleb _ 0) eqn:E1; [reflexivity|]. destruct (qleb qpi _) eqn:E2; [reflexivity|].
+    apply qleb_le, Qclt_le_weak, qltb_lt. now rewrite E2.
+  - reflexivity.
+Qed.
+
+(** no scaled leg length to a visible patch is an integer: decided by running the model *)
+Definition legs_check (rm : @room Qc) (tm : @timing Qc) (pos : @vec Qc) : bool :=
+  forallb (fun k => if nthb (room_point_vis rm pos) k
+                    then let x := ((vdist pos (nthv (rm_centers rm) k) / t_c tm) / t_dt tm)%T in
+                         tleb 0%T x && negb (teqb x (tofnat (ttrunc x)))
+                    else true) (seq 0 (rm_np rm)).
+Lemma legs_check_ok rm tm pos : legs_check rm tm pos = true -> legs_off_integers rm tm pos.
+Proof.
+  intros H k Hk Hv. unfold legs_check in H. rewrite forallb_forall in H.
+  assert (Hin : In k (seq 0 (rm_np rm))) by (apply in_seq; lia).
+  specialize (H k Hin). cbv beta in H. rewrite Hv in H. cbv zeta in H. apply andb_true_iff in H.
+  destruct H as [H0 Hne]. cbv zeta. split; [exact H0|].
+  apply qf_neq. now apply negb_true_iff.
+Qed.
+
+Example room_reciprocity_ordered_applies b t : (b < 2)%nat -> (t < 40)%nat ->
+  legs_off_integers rmQ tmQ ptA /\ legs_off_integers rmQ tmQ ptB /\
+  get2 (room_mono rmQ tmQ ptA ptB 2 false) b t = get2 (room_mono rmQ tmQ ptB ptA 2 false) b t.
+Proof.
+  intros Hb Ht.
+  assert (HA : legs_off_integers rmQ tmQ ptA) by (apply legs_check_ok; vm_compute; reflexivity).
+  assert (HB : legs_off_integers rmQ tmQ ptB) by (apply legs_check_ok; vm_compute; reflexivity).
+  split; [exact HA|]. split; [exact HB|].
+  exact (room_reciprocal_ordered rmQ tmQ b (rhoQ b) ptA ptB 2 t rmQ_one_slot rmQ_in_nonempty
+           (rmQ_diffuse b Hb) Hb rmQ_area_nz HA HB (rmQ_fits_AB b Hb) (rmQ_fits_BA b Hb) Ht).
+Qed.
+
+Print Assumptions room_reciprocity_hypotheses_hold.
+Print Assumptions room_reciprocity_applies.
+Print Assumptions room_reciprocity_ordered_applies.
